@@ -123,6 +123,94 @@ theorem den_ratio {ctx : Ctx} {Mb : Nat} {q : Query} {G : MG Name} (hq : QInv Mb
     sumVars_plainVars_set ctx.M.card (fun n hn => regular_notT (hin2 n hn)) hnd2 (fun _ => Iff.rfl),
     show (fun τ => denL ctx.M.card ctx.leaf q.expr τ) = ctx.M.Q order from (funext h.est).trans hQ]
 
+/-- the value of the factor of Tian's formula for `v`: `Σ_{later} Q[order] / Σ_{v and later} Q[order]` -/
+noncomputable def TrsoAux.ratioVal (M : Scm) (order : List Name) (σ : Val) (v : Name) : Rat :=
+  sumVars M.card (order.drop ((order.takeWhile (· ≠ v)).length + 1)) (M.Q order) σ /
+    sumVars M.card (order.drop (order.takeWhile (· ≠ v)).length) (M.Q order) σ
+
+theorem TrsoAux.ratioVal_split (M : Scm) {order l1 l2 : List Name} {v : Name} (hnd : order.Nodup)
+    (h : order = l1 ++ v :: l2) (σ : Val) :
+    TrsoAux.ratioVal M order σ v = sumVars M.card l2 (M.Q order) σ / sumVars M.card (v :: l2) (M.Q order) σ := by
+  have hvl1 : v ∉ l1 := fun hc =>
+    (List.nodup_append.mp (h ▸ hnd)).2.2 v hc v List.mem_cons_self rfl
+  obtain ⟨_, hs2, hs3⟩ := order_split h hvl1
+  unfold TrsoAux.ratioVal
+  rw [show order.drop ((order.takeWhile (· ≠ v)).length + 1) = l2 from hs3,
+    show order.drop (order.takeWhile (· ≠ v)).length = v :: l2 from hs2]
+
+/-- Tian–Pearl Lemma 4 along the regular order of the current graph: the ratios of a duplicate-free list `D` of
+regular nodes with the members of a district multiply to `Q[D]` -/
+theorem TrsoAux.tian_prod {ctx : Ctx} {Mb : Nat} {q : Query} {G : MG Name} (hq : QInv Mb q G) (h : SemInv ctx q G)
+    {order : List Name} (hord : regularOrder G = .ok order) {D d : List Name} (hd : d ∈ G.districts)
+    (hDnd : D.Nodup) (hDd : ∀ v, v ∈ D ↔ v ∈ d) (hDT : ∀ v ∈ D, isTnode v = false) (σ : Val) :
+    (D.map (TrsoAux.ratioVal ctx.M order σ)).prod = ctx.M.Q D σ := by
+  obtain ⟨hnd, hmem, htopo⟩ := regularOrder_spec hq.wfG hord
+  have hDR : ∀ v ∈ D, v ∈ regularNodes G := fun v hv =>
+    mem_regularNodes.2 ⟨mem_nodes_of_mem_district hq.wfG hd ((hDd v).1 hv), hDT v hv⟩
+  apply Scm.Q_ratio_list ctx.sctx.hM ctx.sctx.hG0 ctx.sctx.hrank order hnd
+    (fun v hv => h.rsub.nodes v ((hmem v).1 hv))
+  · intro l1 l2 hsplit a ha r hr hpa
+    have haV : a ∈ regularNodes G := (hmem a).1 (hsplit ▸ List.mem_append_left _ ha)
+    have hrV : r ∈ regularNodes G := (hmem r).1 (hsplit ▸ List.mem_append_right _ hr)
+    exact htopo l1 l2 hsplit a ha r hr (h.rsub.di r a hrV haV hpa)
+  · exact hDnd
+  · exact fun v hv => (hmem v).2 (hDR v hv)
+  · intro v hv w hw hwD
+    exact district_sep' hq h hd v ((hDd v).1 hv) (hDR v hv) w ((hmem w).1 hw) (fun hc => hwD ((hDd w).2 hc))
+  · exact fun l1 v l2 hsplit => TrsoAux.ratioVal_split ctx.M hnd hsplit σ
+
+/-- one step of the loop of line 9 -/
+theorem TrsoAux.line9_step_sem {ctx : Ctx} {Mb : Nat} {q : Query} {G : MG Name} (hq : QInv Mb q G)
+    (h : SemInv ctx q G) {order : List Name} (hord : regularOrder G = .ok order) {acc acc' : Expr} {node : Name}
+    (hg : Good ctx.S acc) (hn : SumND acc) (hsh : acc = .one ∨ FracClean acc)
+    (hs : (do let i ← indexOf? order node
+              let fr ← truediv (ratioParts q.expr order i).1 (ratioParts q.expr order i).2
+              mul acc fr) = Except.ok acc') :
+    Good ctx.S acc' ∧ SumND acc' ∧ FracClean acc' ∧
+      ∀ σ, denL ctx.M.card ctx.leaf acc' σ = denL ctx.M.card ctx.leaf acc σ * TrsoAux.ratioVal ctx.M order σ node := by
+  obtain ⟨acc'', hs', hfc⟩ := line9_step (e := q.expr) (order := order) (node := node) (acc := acc) h.good.1
+    (by obtain ⟨i, hi, _⟩ := bind_ok hs; exact indexOf_mem hi) hsh
+  rw [hs] at hs'
+  cases hs'
+  obtain ⟨i, hi, hs⟩ := bind_ok hs
+  obtain ⟨fr, hfr, hs⟩ := bind_ok hs
+  obtain ⟨l1, l2, hsplit, hlen, _⟩ := indexOf_split hi
+  rw [← hlen] at hfr
+  obtain ⟨gfr, nfr, _, vfr⟩ := den_ratio hq h hord hsplit hfr
+  have hnd := (regularOrder_spec hq.wfG hord).1
+  refine ⟨good_mul ctx.S hg gfr hs, sumND_mul hn nfr hs, hfc, fun σ => ?_⟩
+  rw [denL_mul hs σ, vfr σ, TrsoAux.ratioVal_split ctx.M hnd hsplit σ]
+
+/-- the loop of line 9 -/
+theorem TrsoAux.line9_fold {ctx : Ctx} {Mb : Nat} {q : Query} {G : MG Name} (hq : QInv Mb q G)
+    (h : SemInv ctx q G) {order : List Name} (hord : regularOrder G = .ok order) :
+    ∀ (L : List Name) (acc r : Expr), Good ctx.S acc → SumND acc → (acc = .one ∨ FracClean acc) →
+      L.foldlM (fun (acc : Expr) node => do
+        let i ← indexOf? order node
+        let fr ← truediv (ratioParts q.expr order i).1 (ratioParts q.expr order i).2
+        mul acc fr) acc = Except.ok r →
+      Good ctx.S r ∧ SumND r ∧ ((L = [] ∧ r = acc) ∨ FracClean r) ∧
+        ∀ σ, denL ctx.M.card ctx.leaf r σ =
+          denL ctx.M.card ctx.leaf acc σ * (L.map (TrsoAux.ratioVal ctx.M order σ)).prod := by
+  intro L
+  induction L with
+  | nil =>
+    intro acc r hg hn _ hr
+    simp only [List.foldlM, pure, Except.pure, Except.ok.injEq] at hr
+    subst hr
+    exact ⟨hg, hn, Or.inl ⟨rfl, rfl⟩, fun σ => by simp⟩
+  | cons a L ih =>
+    intro acc r hg hn hsh hr
+    rw [List.foldlM_cons] at hr
+    obtain ⟨acc', hs, hr⟩ := bind_ok hr
+    obtain ⟨g', n', f', v'⟩ := TrsoAux.line9_step_sem hq h hord hg hn hsh hs
+    obtain ⟨g2, n2, f2, v2⟩ := ih acc' r g' n' (Or.inr f') hr
+    refine ⟨g2, n2, Or.inr ?_, fun σ => ?_⟩
+    · rcases f2 with ⟨_, rfl⟩ | f2
+      · exact f'
+      · exact f2
+    · rw [v2 σ, v' σ, List.map_cons, List.prod_cons, mul_assoc]
+
 /-- **line 9**: the expression built for a component `c` with the members of a district `d` of the current graph
 (regular nodes only) denotes
 `Σ_{c ∖ Y} Q[c]` -/
